@@ -254,8 +254,63 @@ def V(accepted):
 
 
 # ---------------------------------------------------------------------------------------------
+# operations on a client as data (what histories and replays are made of)
+#   dict(op="doc", doc=D) | dict(op="direct", elem_kind=, elem=E, arg=raw, entry=) | dict(op="message", message=kind, elem=E)
+# ---------------------------------------------------------------------------------------------
+def run_op(sp, g):
+    if g["op"] == "doc":
+        return e2e_verdict(sp, doc_xml(g["doc"]))
+    if g["op"] == "direct":
+        return direct_call(sp, g["elem_kind"], g["elem"], g["arg"], g["entry"])
+    got = call(getattr(sp.sec, "correctly_signed_" + g["message"]), message_xml(g["message"], g["elem"]), must=True)
+    return not isinstance(got, Exn), got
+
+
+_trail = {}          # client name -> operations run on that long-lived object so far
+_analysed = [0]
+
+
+def remember(cl, g):
+    _trail.setdefault(cl["name"], []).append(g)
+
+
+def history_of_failure(cl, accepted):
+    """the last operation on long-lived client cl came out as `accepted` against the rule.  Is that its outcome on a
+    fresh client object too?  If not: the shortest suffix of the client's operations that reproduces it (None when
+    not analysed / not history-dependent)."""
+    trail = _trail.get(cl["name"], [])
+    if not trail or _analysed[0] >= 4:
+        return None
+    _analysed[0] += 1
+    alone, _ = run_op(make_client(cl), trail[-1])
+    if alone == accepted:
+        return None
+    for n in (2, 3, 5, 9, 33, len(trail)):
+        ops = trail[-n:]
+        sp = make_client(cl)
+        for g in ops:
+            last, _ = run_op(sp, g)
+        if last == accepted or n >= len(trail):
+            return [dict(g, client=0) for g in ops]
+    return None
+
+
+def report(ctx, cl, accepted, key, what, payload, site):
+    """oracle failure for the last remembered operation of cl; histories get their own key and a replayable sequence"""
+    ops = history_of_failure(cl, accepted)
+    if ops is not None:
+        ctx.oracle_fail("history-leak:%s:%s" % (site, "accepts" if accepted else "refuses"),
+                        "%s — but only after the %d operations before it on the same long-lived client; on a fresh client object the outcome is the other one" % (what, len(ops) - 1),
+                        dict(kind="history", clients=[cl], ops=ops, want=not accepted, alone=not accepted))
+    else:
+        ctx.oracle_fail(key, what, payload)
+
+
+# ---------------------------------------------------------------------------------------------
 def run(ctx):
     env.tool_inprocess(True)
+    _trail.clear()
+    _analysed[0] = 0
     with env.Clock(NOW):
         import time
         for u in (unit_response_level, unit_certs, unit_documents, unit_direct, unit_messages, unit_history):
@@ -393,8 +448,9 @@ def unit_documents(ctx):
                 continue        # the embedded certificate is not looked at with the setting on (covered at response level)
             if ctx.quick and (cl["was"] or cl["wrs"]) and (key not in ("idp", "idp2") or iname not in ("idp1", "idp2") or oname == "unknown"):
                 continue
-            xml = xml or doc_xml(d)
-            accepted, got = e2e_verdict(client(cl), xml)
+            g = dict(op="doc", doc=d)
+            remember(cl, g)
+            accepted, got = run_op(client(cl), g)
             cell = dict(client=cl, place=place, outer=oname, outer_signed=okey, own=iname, key=key, embedded=embed)
             cases.append(dict(id=len(cases), coq="(%s, %s)" % (pcfg_coq(cl), doc_coq(d)), impl=V(accepted),
                               show=dict(cell, client=cl["name"])))
@@ -404,14 +460,14 @@ def unit_documents(ctx):
             payload = dict(kind="doc", client=cl, doc=d, want=want, cell=dict(cell, client=cl["name"]))
             if accepted and not want:
                 where, el, arg = off
-                ctx.oracle_fail("nested-foreign-key:%s:own=%s:outer=%s%s:only_md=%s:fed=%s" % (
+                report(ctx, cl, accepted, "nested-foreign-key:%s:own=%s:outer=%s%s:only_md=%s:fed=%s" % (
                                     place, iname, oname, "+signed" if okey else "", cl["only_md"], cl["name"].split(":")[1]),
                                 "document accepted although its %s element (own Issuer %r%s) is signed with key %r: %s" % (
                                     where, el["issuer"], "" if arg is None else ", enclosing Issuer %r" % arg, el.get("key"),
-                                    why_not(cl, el, arg) if el.get("key") else "a signature is required"), payload)
+                                    why_not(cl, el, arg) if el.get("key") else "a signature is required"), payload, place)
             if not accepted and want:
-                ctx.oracle_fail("nested-own-key-refused:%s:own=%s:outer=%s:fed=%s" % (place, iname, oname, cl["name"].split(":")[1]),
-                                "every signed element carries a signature by its own issuer's signing key, yet the SP refuses (%s)" % (got,), payload)
+                report(ctx, cl, accepted, "nested-own-key-refused:%s:own=%s:outer=%s:fed=%s" % (place, iname, oname, cl["name"].split(":")[1]),
+                                "every signed element of the document is admitted by the rule (its own issuer's signing key, or the embedded certificate where the setting allows the fallback), yet the SP refuses (%s)" % (got,), payload, place)
             if len(cases) % 700 == 0:
                 ctx.sample(dict(cell=dict(cell, client=cl["name"]), outcome=got if not accepted else "accepted"))
     ctx.correspond("documents_issuer_of_nested_element", "Model.Sigver Model.CertSelect Model.IssuerSel",
@@ -479,7 +535,9 @@ def unit_direct(ctx):
             i += 1
             entries = ["check_signature", "_check_signature"] if not ctx.quick else [["check_signature", "_check_signature"][i % 2]]
             for entry in entries:
-                accepted, got = direct_call(client(cl), kind, e, SPELL[aname], entry)
+                g = dict(op="direct", elem_kind=kind, elem=e, arg=SPELL[aname], entry=entry)
+                remember(cl, g)
+                accepted, got = run_op(client(cl), g)
                 cell = dict(client=cl["name"], entry=entry, kind=kind, own=oname, arg=aname, key=key, embedded=embed)
                 emb = D.embedded_key(e)
                 cases.append(dict(id=len(cases), coq="(%s, %s, %s, %s, %d)" % (vcfg_coq(cl), iss_coq(SPELL[aname]), iss_coq(SPELL[oname]),
@@ -490,12 +548,12 @@ def unit_direct(ctx):
                 want = want_elem(cl, e, SPELL[aname])
                 payload = dict(kind="direct", client=cl, elem=e, elem_kind=kind, arg=SPELL[aname], entry=entry, want=want, cell=cell)
                 if accepted and not want:
-                    ctx.oracle_fail("direct-foreign-key:%s:%s:own=%s:arg=%s:only_md=%s:fed=%s" % (entry, kind, oname, aname, cl["only_md"], cl["name"].split(":")[1]),
+                    report(ctx, cl, accepted, "direct-foreign-key:%s:%s:own=%s:arg=%s:only_md=%s:fed=%s" % (entry, kind, oname, aname, cl["only_md"], cl["name"].split(":")[1]),
                                     "%s(%s with own Issuer %r, issuer=%r) accepts a signature by key %r: %s" % (
-                                        entry, kind, SPELL[oname], SPELL[aname], key, why_not(cl, e, SPELL[aname])), payload)
+                                        entry, kind, SPELL[oname], SPELL[aname], key, why_not(cl, e, SPELL[aname])), payload, "direct-" + kind)
                 if not accepted and want:
-                    ctx.oracle_fail("direct-own-key-refused:%s:%s:own=%s:arg=%s:fed=%s" % (entry, kind, oname, aname, cl["name"].split(":")[1]),
-                                    "%s refuses a signature by the signing key of the issuer it has to select (%s)" % (entry, got), payload)
+                    report(ctx, cl, accepted, "direct-own-key-refused:%s:%s:own=%s:arg=%s:fed=%s" % (entry, kind, oname, aname, cl["name"].split(":")[1]),
+                           "%s refuses a signature by the signing key of the issuer it has to select (%s)" % (entry, got), payload, "direct-" + kind)
                 if len(cases) % 900 == 0:
                     ctx.sample(dict(cell=cell, outcome=got if not accepted else "accepted"))
     ctx.correspond("direct_issuer_argument", "Model.Sigver Model.CertSelect Model.IssuerSel",
@@ -523,8 +581,9 @@ def unit_messages(ctx):
         for cl in cls:
             if ctx.quick and only_on(cl) and embed is None:
                 continue
-            got = call(getattr(client(cl).sec, "correctly_signed_" + kind), message_xml(kind, e), must=True)
-            accepted = not isinstance(got, Exn)
+            g = dict(op="message", message=kind, elem=e)
+            remember(cl, g)
+            accepted, got = run_op(client(cl), g)
             cell = dict(client=cl["name"], message=kind, issuer=iname, key=key, embedded=embed)
             emb = D.embedded_key(e)
             cases.append(dict(id=len(cases), coq="(%s, %s, %s, %d)" % (vcfg_coq(cl), iss_coq(SPELL[iname]), clist([emb] if emb else [], lambda c: "%d" % KID[c]), KID[key]),
@@ -534,11 +593,11 @@ def unit_messages(ctx):
             want = want_elem(cl, e)
             payload = dict(kind="message", client=cl, elem=e, message=kind, want=want, cell=cell)
             if accepted and not want:
-                ctx.oracle_fail("message-foreign-key:%s:issuer=%s:only_md=%s:fed=%s" % (kind, iname, cl["only_md"], cl["name"].split(":")[1]),
-                                "correctly_signed_%s accepts a signature by key %r for Issuer %r: %s" % (kind, key, SPELL[iname], why_not(cl, e)), payload)
+                report(ctx, cl, accepted, "message-foreign-key:%s:issuer=%s:only_md=%s:fed=%s" % (kind, iname, cl["only_md"], cl["name"].split(":")[1]),
+                       "correctly_signed_%s accepts a signature by key %r for Issuer %r: %s" % (kind, key, SPELL[iname], why_not(cl, e)), payload, "message")
             if not accepted and want:
-                ctx.oracle_fail("message-own-key-refused:%s:issuer=%s:fed=%s" % (kind, iname, cl["name"].split(":")[1]),
-                                "correctly_signed_%s refuses a signature by the issuer's own signing key (%s)" % (kind, got), payload)
+                report(ctx, cl, accepted, "message-own-key-refused:%s:issuer=%s:fed=%s" % (kind, iname, cl["name"].split(":")[1]),
+                       "correctly_signed_%s refuses a signature by the issuer's own signing key (%s)" % (kind, got), payload, "message")
     ctx.correspond("message_sites", "Model.Sigver Model.CertSelect Model.IssuerSel",
                    "fun c : vcfg * issuer_elem * list N * N => match c with (v, own, e, k) => "
                    "show_verdict (check_at v SiteMessage None None own e k) end",
@@ -575,11 +634,17 @@ def h_doc(o):
     return place_doc(o["site"], ISSUERS[o["outer"]], None, inner)
 
 
-def h_run(sp, o):
+def h_generic(o):
+    if "op" in o:
+        return o
     if o["site"].startswith("direct-"):
-        e = E(SPELL[o["issuer"]], o["key"], embed=o["embed"])
-        return direct_call(sp, o["site"][7:], e, SPELL[o["arg"]], "check_signature")
-    return e2e_verdict(sp, doc_xml(h_doc(o)))
+        return dict(client=o["client"], op="direct", elem_kind=o["site"][7:], elem=E(SPELL[o["issuer"]], o["key"], embed=o["embed"]),
+                    arg=SPELL[o["arg"]], entry="check_signature")
+    return dict(client=o["client"], op="doc", doc=h_doc(o))
+
+
+def h_run(sp, o):
+    return run_op(sp, h_generic(o))
 
 
 def h_want(cl, o):
@@ -604,7 +669,8 @@ def history_sequences(ctx, ncl):
             for k in (H_KEYS[:2] if ctx.quick else H_KEYS):
                 seq.append(h_op(x, site, "idp1", k, arg="idp1"))
                 seq.append(h_op(y, site, "idp2", k, outer="idp1", arg="idp1"))
-                seq.append(h_op(y, site, "unknown", k, outer="idp1", arg="idp2"))
+                seq.append(h_op(y, "direct-response" if site == "response" and (x + y) % 2 else site,
+                                "absent" if (x + y) % 2 else "unknown", k, outer="idp1", arg="idp2" if x % 2 else "absent"))
         seqs.append(seq)
     # seeded random interleavings of every kind of operation on every client
     for _ in range(4 if ctx.quick else 40):
@@ -635,7 +701,7 @@ def unit_history(ctx):
             if accepted != want:
                 alone, _ = h_run(make_client(cl), o)
                 prev = seq[max(0, j - 3):j]
-                payload = dict(kind="history", clients=cls, ops=seq[:j + 1], want=want, alone=alone)
+                payload = dict(kind="history", clients=cls, ops=[h_generic(x) for x in seq[:j + 1]], want=want, alone=alone)
                 if alone == want:
                     ctx.oracle_fail("history-leak:%s:%s" % (o["site"], "accepts" if accepted else "refuses"),
                                     "operation %d of a sequence on long-lived clients (%s at client %s: Issuer %s, key %r) is %s, but %s on a fresh client; the operations before it: %s" % (
@@ -643,7 +709,7 @@ def unit_history(ctx):
                                         "accepted" if alone else "refused", json.dumps(prev)), payload)
                 else:
                     ctx.oracle_fail("history-op:%s:%s:issuer=%s:client=%s" % (o["site"], "accepts" if accepted else "refuses", o["issuer"], cl["name"]),
-                                    "%s at client %s (Issuer %s, key %r, outer %s, issuer= %s) is %s, also on a fresh client; the property wants %s" % (
+                                    "%s at client %s (Issuer %s, key %r, outer %s, issuer= %s) is %s, also on a new client object in this process (not history-dependent, or the state lives outside the client objects); the property wants %s" % (
                                         o["site"], cl["name"], o["issuer"], o["key"], o["outer"], o["arg"], "accepted" if accepted else "refused",
                                         "acceptance" if want else "refusal"), payload)
         cases.append(dict(id=si, coq=clist(seq, h_coq), impl=outcomes, show=dict(sequence=si, operations=len(seq), first=seq[:3])))
@@ -684,7 +750,7 @@ def replay(ctx, payload):
             for j, o in enumerate(inp["ops"]):
                 acc, got = h_run(sps[o["client"]], o)
                 if j >= len(inp["ops"]) - 4:
-                    print("op %d on long-lived client %s: %s -> %s" % (j, inp["clients"][o["client"]]["name"], o, "accepted" if acc else got))
+                    print("op %d on long-lived client %s: %s -> %s" % (j, inp["clients"][o["client"]]["name"], json.dumps(o), "accepted" if acc else got))
             o = inp["ops"][-1]
             acc, got = h_run(make_client(inp["clients"][o["client"]]), o)
             print("the last operation on a fresh client:", "accepted" if acc else got, "- the property wants", "acceptance" if inp["want"] else "refusal")
